@@ -150,7 +150,7 @@ def c10(m, tier):
 
 
 def c13(m, tier):
-    return [rules_io.rule_schema_text(m), rules_io.rule_open(m), rules_io.rule_tokeniser_access(m), rules_io.rule_grow(m),
+    return [rules_io.rule_schema_text(m), rules_io.rule_tokeniser_schema(m), rules_io.rule_open(m), rules_io.rule_tokeniser_access(m), rules_io.rule_grow(m),
             dropped_cells_result(m, {'io.text'})]
 
 
@@ -405,7 +405,18 @@ PROPERTIES = {
 
 def run(prop, tier, only, t0):
     spec = PROPERTIES[prop]
-    m = model(tier)
+    try:
+        m = model(tier)
+    except facts.AnalysisBroken as e:
+        if prop != 'C20':
+            raise
+        # the headers do not even parse in the witness units: the compile matrix itself is the verdict
+        out = list(matrix.rule_matrix(tier)) + [matrix.rule_hygiene(tier)]
+        br = RuleResult('EXTRACT', 'fact extraction')
+        br.broken('fact extraction failed (AST-level rules D-GUARD / D-ODR not evaluated): %s' % str(e)[:300])
+        out.append(br)
+        return finish(prop, tier, spec['level'], out, t0, spec['explanation'], spec['assumptions'], spec['trusted_base'],
+                      'cd /verif && python3 -m bgcheck %s --tier %s' % (prop, tier), extra_coverage={}, units=[])
     results = spec['fn'](m, tier)
     flat = []
     for r in results:
